@@ -26,6 +26,7 @@ Oracle (independent of pywbem):
 """
 import gzip
 import inspect
+import os
 import logging
 import random
 import re
@@ -754,7 +755,7 @@ def _on_alarm(signum, frame):
 
 
 signal.signal(signal.SIGALRM, _on_alarm)
-WATCHDOG_S = 40
+WATCHDOG_S = 40 * float(os.environ.get('PYVC_BOUNDED_SLOW', '1'))     # confirmation run: x4 (runner)
 
 AD = Script()
 ALL_CONNS = []
